@@ -541,11 +541,19 @@ class CExec:
         raise OutOfSubset("float operator %s" % op)
 
     # ---------------------------------------------------------------- memory
+    def ptr_formed(self, st, obj, off, node):
+        """C11 6.5.6p8: pointer arithmetic must stay inside the object or one past its end"""
+        o = st.objs.get(obj) if isinstance(obj, str) else None
+        if o is not None and o.length is not None:
+            self.oblige(st, "ub", "ptr_arith.stays_in_object.%s" % obj.split("#")[0], z3.And(off >= 0, off <= o.length), node)
+
     def ptr_binop(self, st, op, x, y, ty, node):
         if op in ("+", "-") and isinstance(x, Ptr) and not isinstance(y, Ptr):
             off = x.off + y.t if op == "+" else x.off - y.t
+            self.ptr_formed(st, x.obj, off, node)
             return Ptr(x.ty, x.obj, off)
         if op == "+" and isinstance(y, Ptr):
+            self.ptr_formed(st, y.obj, y.off + x.t, node)
             return Ptr(y.ty, y.obj, y.off + x.t)
         if op == "-" and isinstance(x, Ptr) and isinstance(y, Ptr) and x.obj == y.obj:
             return CV(ty, x.off - y.off)
